@@ -151,15 +151,20 @@ func ruleStaleElem(c *Ctx, r *Report, f *ssa.Function) {
 // rulesTraverseStep (STEP): the explicit-stack step function of traverse.
 func rulesTraverseStep(c *Ctx, r *Report) {
 	outer := c.role("newick.traverse")
-	if outer == nil || len(outer.AnonFuncs) != 1 {
-		r.undecided("STEP", "formats/newick.(*Node).traverse", "anchor", "", "traverse with one iterator literal not found")
+	ib := c.iterBody(outer)
+	if ib == nil {
+		r.undecided("STEP", "formats/newick.(*Node).traverse", "anchor", "", "traverse with one iterator literal (or a method value) not found")
 		return
 	}
-	lit := outer.AnonFuncs[0]
-	where := fname(lit)
+	lit := ib.lit
+	where := fname(outer) + "$1"
+	if lit != nil {
+		where = fname(lit)
+	}
 	r.analysed(where)
-	// the literal's body, or the function it hands the whole walk to (rendered in the literal's vocabulary)
-	f, s, paramIn := c.delegatedBody(lit)
+	// the literal's body, the function it hands the whole walk to, or the method whose value is returned (rendered
+	// in the literal's vocabulary)
+	f, s := ib.f, ib.s
 	if f != lit {
 		r.analysed(fname(f))
 	}
@@ -169,10 +174,7 @@ func rulesTraverseStep(c *Ctx, r *Report) {
 		guard string
 	}
 	var ys []ycall
-	var yieldV ssa.Value
-	if len(lit.Params) == 1 {
-		yieldV = paramIn(lit.Params[0])
-	}
+	yieldV := ib.yield
 	instrs(f, func(in ssa.Instruction) {
 		if cl, ok := in.(*ssa.Call); ok && yieldV != nil && cl.Call.Value == yieldV {
 			ys = append(ys, ycall{cl, guardOf(s, cl.Block(), nil)})
